@@ -990,7 +990,7 @@ int prog_exec_line(ctx_t *c, const char *line) {
   if (!strcmp(w[0], "mat")) { /* mat R m n GEN p seed */
     if (n < 7) return -1;
     long r = atol(w[1]), m = atol(w[2]), nn = atol(w[3]);
-    if (!ISREG(r) || c->m[r] || m < 0 || nn < 0 || m > 20000 || nn > 20000) { c->skipped = 1; return 1; }
+    if (!ISREG(r) || c->m[r] || m < 0 || nn < 0 || m > 70000 || nn > 70000 || (double)m * (double)nn > 3.0e8) { c->skipped = 1; return 1; }
     c->m[r] = Lb->mzd_init((rci_t)m, (rci_t)nn);
     c->parent[r] = -1;
     gen_fill(c->m[r], w[4], atol(w[5]), strtoull(w[6], NULL, 10));
@@ -999,7 +999,7 @@ int prog_exec_line(ctx_t *c, const char *line) {
   if (!strcmp(w[0], "wmat")) { /* wmat R m n GEN p seed r0 c0w er ec : operand that is a window into a larger, junk filled owner */
     if (n < 11) return -1;
     long r = atol(w[1]), m = atol(w[2]), nn = atol(w[3]), r0 = atol(w[7]), c0w = atol(w[8]), er = atol(w[9]), ec = atol(w[10]);
-    if (!ISREG(r) || c->m[r] || m < 1 || nn < 1 || m > 20000 || nn > 20000 || r0 < 0 || c0w < 0 || er < 0 || ec < 0 || r0 > 64 || c0w > 8 || er > 64 || ec > 200) { c->skipped = 1; return 1; }
+    if (!ISREG(r) || c->m[r] || m < 1 || nn < 1 || m > 70000 || nn > 70000 || (double)m * (double)nn > 3.0e8 || r0 < 0 || c0w < 0 || er < 0 || ec < 0 || r0 > 64 || c0w > 8 || er > 64 || ec > 200) { c->skipped = 1; return 1; }
     mzd_t *P = Lb->mzd_init((rci_t)(m + r0 + er), (rci_t)(c0w * 64 + nn + ec));
     gen_fill(P, "rand", 128, strtoull(w[6], NULL, 10) ^ 0x77696e646f77ULL ^ sm64_mix(gen_world_seed)); /* what surrounds the view is no operand value: it differs from world to world (the fresh world has gen_world_seed 0) */
     c->hid[r] = P;
@@ -1028,7 +1028,7 @@ int prog_exec_line(ctx_t *c, const char *line) {
   if (!strcmp(w[0], "perm")) { /* perm P len GEN seed */
     if (n < 5) return -1;
     long r = atol(w[1]), len = atol(w[2]);
-    if (!ISP(r) || c->p[r] || len < 0 || len > 20000) { c->skipped = 1; return 1; }
+    if (!ISP(r) || c->p[r] || len < 0 || len > 70000) { c->skipped = 1; return 1; }
     c->p[r] = Lb->mzp_init((rci_t)len);
     gen_perm(c->p[r], w[3], strtoull(w[4], NULL, 10), (rci_t)len);
     return 0;
